@@ -391,14 +391,14 @@ func init() {
 
 	register(&Rule{
 		ID: "C15-c", Template: "T10 agreement (log carried along)",
-		Doc: "Rename and Copy carry the log: every RunInTx closure of the SQL store that writes the refs table for a second key (INSERT INTO refs) outside SetWithLog/Set also issues a statement on reflogs in the same closure; Delete removes the log rows in the same transaction as the ref row.",
-		Min: 3,
+		Doc: "SetWithLog, Rename and Copy carry the log: every RunInTx closure of the SQL store that writes the refs table for a second key (INSERT INTO refs) outside SetWithLog/Set also issues a statement on reflogs in the same closure; Delete removes the log rows in the same transaction as the ref row.",
+		Min: 4,
 		Run: func(p *Program, r *RuleResult) error {
 			runInTx, err := runInTxFunc(p)
 			if err != nil {
 				return err
 			}
-			for _, n := range []string{"Rename", "Copy", "Delete"} {
+			for _, n := range []string{"Rename", "Copy", "Delete", "SetWithLog"} {
 				if _, err := p.Func("pkg/ref/sql.(*Store)." + n); err != nil {
 					return err
 				}
@@ -409,7 +409,7 @@ func init() {
 				if fn.Parent() != nil {
 					continue
 				}
-				if fn.Name() != "Rename" && fn.Name() != "Copy" && fn.Name() != "Delete" {
+				if fn.Name() != "Rename" && fn.Name() != "Copy" && fn.Name() != "Delete" && fn.Name() != "SetWithLog" {
 					continue
 				}
 				cls := txClosures(fn, runInTx)
